@@ -454,8 +454,8 @@ def oracle_orderstats(case, R):
             R.label("roundtrip_pcp")
     # ---- 'n' (and round trip n -> r)
     if n_equals_r_region(p, c, r):
-        R.label("n_task:answer_is_r(see part os_n_at_r)")
-    elif n_estimate(p, c, r) > 60000:
+        R.label("n_task:answer_is_r")       # (F14, fixed: used to raise ValueError)
+    if n_estimate(p, c, r) > 60000:
         R.label("n_task:skipped_large")
     else:
         ng = stats.order_stats("n", p=p, c=c, r=r)
@@ -604,8 +604,7 @@ def oracle_broadcast(case, R):
         if which == "n" and any(
                 n_equals_r_region(*_elementwise((kw["p"], kw["c"], kw["r"]), i, shp))
                 for i in np.ndindex(*shp)):
-            R.label("n_task:answer_is_r(see part os_n_at_r)")
-            continue
+            R.label("n_task:answer_is_r")
         out = stats.order_stats(which, **{k: _arr(v, arr) for k, v in kw.items()})
         if not R.check(np.shape(out) == shp, f"os_{which}_broadcast_shape",
                        f"{kw}: {np.shape(out)} want {shp}"):
